@@ -39,6 +39,14 @@ def build_pool(seed, n=60):
     for k in range(2):
         pool.append({'src': 'li a0, 1\nlui a1, %hi(ext)\naddi a1, a1, %lo(ext)\nmv a2, a1\ncall rom_putc\nown:\nj own\n', 'compress': bool(k), 'dicts': True,
                      'ext': {'ext': 0x20001000, 'rom_putc': 0x1fff0100}})
+    # register numbers spelled in hex / binary / octal, first in compressed (3-bit) register slots, then in 32-bit instructions
+    pool.append({'src': 'c.and 0xa, 0xb\nc.lw 0b1001, 4(0xa)\nc.srli 0xf, 0x2\nc.sub 0o10, 0xc\n', 'compress': False, 'dicts': True})
+    pool.append({'src': 'add 0xa, 0xb, 0xa\nslli 0xf, 0xf, 0x2\nlw 0b1001, 4(0xa)\nsub 0o10, 0o10, 0xc\n', 'compress': False, 'dicts': True,
+                 'expect_out': '3385a50093972700832445003304c440'})      # hand-assembled: add x10,x11,x10 / slli x15,x15,2 / lw x9,4(x10) / sub x8,x8,x12
+    # program text (not a file) whose include / include_bytes files sit in the working directory of the moment
+    for k in range(2):
+        pool.append({'src': 'include cwdinc.asm\naddi x1, x0, CWDK\ninclude_bytes cwdblob.bin\n', 'compress': False, 'dicts': True,
+                     'cwdfiles': {'cwdinc.asm': 'CWDK = %d\n' % (7 + k), 'cwdblob.bin': 'NEW%d' % k}, 'expect_out': ('9300%x000' % (7 + k)) + ('NEW%d' % k).encode().hex()})
     # programs that fail at different stages while the caller's table holds external symbols
     for bad in ('K = 5 / 2', 'K = NOSUCH + 1', 'x5 = 3', 'addi x1, x1, 5000', 'j nolabel', 'K = (1'):
         pool.append({'src': 'nop\n%s\ncall rom_putc\n' % bad, 'compress': False, 'dicts': True, 'ext': {'ext': 0x20001000, 'rom_putc': 0x1fff0100}})
@@ -111,6 +119,14 @@ def run_entry(asm, entry, root):
         incs_before = list(incs)
     else:
         src = entry['src']
+    back = None
+    if entry.get('cwdfiles'):
+        cwd = tempfile.mkdtemp(prefix='cwd', dir=root)
+        for name, text in entry['cwdfiles'].items():
+            with open(os.path.join(cwd, name), 'w') as f:
+                f.write(text)
+        back = os.getcwd()
+        os.chdir(cwd)
     try:
         out = bytes(asm.assemble(src, **kw))
         again = None
@@ -126,8 +142,12 @@ def run_entry(asm, entry, root):
         f = getattr(line, 'file', None)
         res = {'ok': False, 'type': type(e).__name__, 'msg': str(getattr(e, 'message', e))[:200].replace(root, '<root>'),
                'file': os.path.basename(f) if isinstance(f, str) else f, 'number': getattr(line, 'number', None), 'externals_changed_by_the_failing_call': ext_lost}
+    if back is not None:
+        os.chdir(back)
     if incs is not None:
         res['include_dirs_mutated'] = incs != incs_before
+    if entry.get('expect_out') is not None:
+        res['differs_from_hand_computed'] = None if res.get('out') == entry['expect_out'] else entry['expect_out']
     return res
 
 
